@@ -1,5 +1,7 @@
 /-
-  C20 driver.  Input line: {"case": {threads, extra_keys, schedule}, "impl": {allowed, signer_algs, trace, events}}.
+  C20 driver.  Input line: {"case": {threads, extra_keys, schedule, workers?, preempt?}, "impl": {allowed, signer_algs, trace, events}}.
+  `workers` (which OS thread serves which logical thread) and `preempt` (statement-level preemption point) are
+  harness-side execution parameters: the model's threads are the logical callers, its answer depends on neither.
   The two algorithm tables are the ones the harness read from the running pysaml2 (`SIG_ALLOWED_ALG`,
   `SIGNER_ALGS`); the property theorems hold for every table.
   Answer: the repaired-design model's trace and observable on the COMPLETED schedule ("model"), the
@@ -124,23 +126,33 @@ def handle (line : Json) : Json :=
   let iObs := (arrD impl "events").map parseObs
   let iIntact := (arrD impl "events").all fun e => strD e "r" != "sig" || boolD e "intact"
   let iTrace := parseTrace impl
-  let likeM := decide (iObs = mObs) && decide (iTrace = mTrace) && iIntact
-  let likeS := decide (iObs = sObs) && decide (iTrace = sTrace) && iIntact
+  -- streams: "gates" (call-boundary gates, one OS thread per logical thread), "pool" (several logical threads per
+  -- OS thread; the model's threads stay the logical callers), "preempt" (one statement-level preemption: no gate
+  -- trace, results compared per logical thread because the model's answer does not depend on the preemption point)
+  let preempt := (obj? c "preempt").isSome
+  let nWorkers := (natList c "workers").eraseDups.length
+  let stream := if preempt then "preempt" else if (arr? c "workers").isSome then s!"pool{nWorkers}" else "gates"
+  let canon : List (Nat × Obs K) → List (Nat × Obs K) := fun l =>
+    if preempt then (List.range threads.length).flatMap (fun t => l.filter (fun p => p.1 == t)) else l
+  let sameTrace : List (Nat × String) → Bool := fun tr => preempt || decide (iTrace = tr)
+  let likeM := decide (canon iObs = canon mObs) && sameTrace mTrace && iIntact
+  let likeS := decide (canon iObs = canon sObs) && sameTrace sTrace && iIntact
   let like := if likeM && likeS then "both" else if likeM then "per-call" else if likeS then "shared" else "neither"
   let race := !(decide (mObs = sObs))
-  let cls := if race then "race" else if interleaved g.trace then "interleaved" else "sequential"
+  let cls := if preempt then (if boolD impl "held" then "held" else "not-reached")
+             else if race then "race" else if interleaved g.trace then "interleaved" else "sequential"
   let hit := allBranches.filter fun b => g.trace.any fun p => p.2 == b
   let noops := noopTags tb threads sched
   let tags := hit.map branchTag ++ noops
   let codes := hit.map branchCode ++ noops.map fun s => if s == "slot/finished-thread" then "xF" else "xT"
-  let path := s!"{threads.length}t/{cls}/{"+".intercalate codes}"
+  let path := s!"{stream}/{threads.length}t/{cls}/{"+".intercalate codes}"
   let specI := specOk keys iObs
   let base : List (String × Json) :=
     [("model", Json.mkObj [("trace", traceJson g.trace), ("events", jarr (mObs.map fun p => obsJson p.1 p.2))]),
      ("model_shared", if race || decide (mTrace ≠ sTrace) then
         Json.mkObj [("trace", traceJson gs.trace), ("events", jarr (sObs.map fun p => obsJson p.1 p.2))]
       else Json.str "same-as-model"),
-     ("like", like), ("class", cls), ("tags", jstrs tags), ("path", path),
+     ("like", like), ("class", cls), ("stream", stream), ("tags", jstrs tags), ("path", path),
      ("spec_model", specOk keys mObs), ("spec_impl", specI)]
   let why : List (String × Json) :=
     if specI then [] else
